@@ -35,7 +35,7 @@ package stree
 //@+     && (forall y ref :: {y in x.left.desc} {y in x.right.desc} !(inD(x.left, y) && inD(x.right, y)))
 //@ pred closed(y *node[T]) := (forall z *node[T] :: {z in y.desc} z in y.desc ==> (forall w ref :: {w in z.desc} w in z.desc ==> w in y.desc) && (forall k int :: {k in z.keys} k in z.keys ==> k in y.keys && z.rep[k] == y.rep[k]))
 //@ pred treeOK(n *node[T], cmp func(T, T) int) := n != nil ==> allocated(n) && n in n.desc
-//@+     && (forall y *node[T] :: {y in n.desc} {weight(7)} y in n.desc ==> y != nil && allocated(y) && local(y, cmp) && closed(y))
+//@+     && (forall y *node[T] :: {y in n.desc} y in n.desc ==> y != nil && allocated(y) && local(y, cmp) && closed(y))
 //@ pred treeInv(t *Tree[T]) := t != nil && treeOK(t.root, t.compare)
 //@+     && (forall k int :: {k in t.elems} k in t.elems <==> inK(t.root, k))
 //@+     && (forall k int :: {t.vals[k]} k in t.elems ==> t.vals[k] == t.root.rep[k])
